@@ -24,7 +24,7 @@ RULE = ("random histories: 3 data shares + a streak queue + a deck, 7-10 logs co
         "before / after / both sides of the logger step, repeated or fresh values, stamping and non-stamping writes, "
         "logger stepped every tick or every 3rd tick, optional STOP..START restart; START sent to a running logger; writes that create fields (Share.create as mapping / pairs / keywords); distinct = digest of the whole "
         "spec; non-trivial = at least 3 logger runs and at least one write after the first run")
-RULE = __import__("vf.core", fromlist=["rule_add"]).rule_add(RULE, 'also a START control while the logger runs')
+RULE = __import__("vf.core", fromlist=["rule_add"]).rule_add(RULE, 'also a START control while the logger runs; also a field taken away from a watched share (last in every selection that names it)')
 META = {"engine": "F logging", "technique": "history of unique-valued writes + per-rule sequential model on parsed log files",
         "level_text": "exploration: every generated history is decided exactly by the model; histories are sampled, not exhausted",
         "level_note": "virtual store time; logger runner driven directly (no Skedder); text logs only; values are ints/strings"}
